@@ -19,14 +19,36 @@ OWNERS = ['o0', 'o1']
 SIDS = ['s_a', 'sxa', 'S_A']
 WORKERS = ['w1', 'w2', 'w3']
 STATES = ['ACTIVE', 'INACTIVE', 'COMPLETED', 'STATE_UNSPECIFIED']
+BAD_NAME = 'BAD_NAME'
 MUTATING = {'create_study', 'delete_study', 'set_state', 'create_trial',
             'suggest', 'add_meas', 'complete', 'stop', 'delete_trial',
             'update_md'}
 
 
 # ---------------------------------------------------------------- strategies
+STUDY_RPCS = ('get_study', 'delete_study', 'set_state', 'list_trials',
+              'create_trial', 'suggest', 'update_md', 'list_optimal')
+TRIAL_RPCS = ('get_trial', 'add_meas', 'complete', 'stop', 'delete_trial',
+              'early_stop')
+# ways of turning the name of an existing resource into a name that denotes
+# no study / trial: extra path components behind it, the parent's name, junk
+# in front of it
+BAD_SHAPES = ('ext_trial', 'ext_meas', 'ext_x', 'parent', 'prefix_junk')
+
+
+def bad_name(rpc, owner, sid, tid, shape):
+  study, trial = sm.sname(owner, sid), sm.tname(owner, sid, tid)
+  if rpc in STUDY_RPCS:
+    return {'ext_trial': trial, 'ext_meas': trial + '/measurements/1',
+            'ext_x': study + '/x', 'parent': 'owners/' + owner,
+            'prefix_junk': 'x/' + study}[shape]
+  return {'ext_trial': trial + '/trials/1', 'ext_meas': trial + '/measurements/1',
+          'ext_x': trial + '/x', 'parent': study,
+          'prefix_junk': 'x/' + trial}[shape]
+
+
 def op_strategy(max_suggest=3, md=True, optimal=True, early_stop=True,
-                owners=None, sids=None):
+                owners=None, sids=None, bad_names=False):
   owner = st.sampled_from(owners or ['o0'] * 5 + ['o1'])
   sid = st.sampled_from(sids or ['s_a'] * 6 + ['sxa', 'S_A'])
   tid = st.sampled_from([1, 1, 1, 2, 2, 2, 3, 3, 4, 5, 6, 9])
@@ -78,6 +100,10 @@ def op_strategy(max_suggest=3, md=True, optimal=True, early_stop=True,
                           st.lists(item, min_size=1, max_size=3)))
   if optimal:
     ops += w(1, st.tuples(st.just('list_optimal'), owner, sid))
+  if bad_names:
+    ops += w(2, st.tuples(st.just('bad_name'),
+                          st.sampled_from(STUDY_RPCS + TRIAL_RPCS), owner, sid,
+                          tid, st.sampled_from(BAD_SHAPES)))
   table = [strat for _, strat in ops]
   weighted = [i for i, (k, _) in enumerate(ops) for _ in range(k)]
   return st.sampled_from(weighted).flatmap(lambda i: table[i]).map(list)
@@ -130,6 +156,14 @@ def md_request(owner, sid, items):
     u.metadatum.ns = ns
     u.metadatum.key = key
     u.metadatum.value = val
+  return req
+
+
+def _bad_md_request(name):
+  req = vsp.UpdateMetadataRequest(name=name)
+  u = req.delta.add()
+  u.metadatum.key = 'k'
+  u.metadatum.value = 'bad'
   return req
 
 
@@ -326,6 +360,44 @@ def exec_real(s, op, scribble=True):
       req = vsp.ListOptimalTrialsRequest(parent=sm.sname(op[1], op[2]))
       r = s.ListOptimalTrials(req)
       out = [svc.norm_trial(t) for t in r.optimal_trials]
+    elif kind == 'bad_name':
+      rpc = op[1]
+      bad = bad_name(*op[1:])
+      req, method = {
+          'get_study': lambda: (vsp.GetStudyRequest(name=bad), 'GetStudy'),
+          'delete_study': lambda: (vsp.DeleteStudyRequest(name=bad),
+                                   'DeleteStudy'),
+          'set_state': lambda: (vsp.SetStudyStateRequest(
+              parent=bad, state=svc.SS.INACTIVE), 'SetStudyState'),
+          'list_trials': lambda: (vsp.ListTrialsRequest(parent=bad),
+                                  'ListTrials'),
+          'create_trial': lambda: (vsp.CreateTrialRequest(
+              parent=bad, trial=svc.params_to_trial_proto(svc.det_params(99))),
+                                   'CreateTrial'),
+          'suggest': lambda: (vsp.SuggestTrialsRequest(
+              parent=bad, client_id='w1', suggestion_count=1), 'SuggestTrials'),
+          'update_md': lambda: (_bad_md_request(bad), 'UpdateMetadata'),
+          'list_optimal': lambda: (vsp.ListOptimalTrialsRequest(parent=bad),
+                                   'ListOptimalTrials'),
+          'get_trial': lambda: (vsp.GetTrialRequest(name=bad), 'GetTrial'),
+          'add_meas': lambda: (vsp.AddTrialMeasurementRequest(
+              trial_name=bad, measurement=svc.measurement(9.0, step=1)),
+                               'AddTrialMeasurement'),
+          'complete': lambda: (vsp.CompleteTrialRequest(
+              name=bad, final_measurement=svc.measurement(9.0)),
+                               'CompleteTrial'),
+          'stop': lambda: (vsp.StopTrialRequest(name=bad), 'StopTrial'),
+          'delete_trial': lambda: (vsp.DeleteTrialRequest(name=bad),
+                                   'DeleteTrial'),
+          'early_stop': lambda: (vsp.CheckTrialEarlyStoppingStateRequest(
+              trial_name=bad), 'CheckTrialEarlyStoppingState'),
+      }[rpc]()
+      r = getattr(s, method)(req)
+      if rpc == 'suggest' and r.HasField('error'):
+        return ('err', 'OP_ERROR', r.error.message[:200])
+      if rpc == 'update_md' and r.error_details:
+        return ('err', 'ERROR_DETAILS', r.error_details[:200])
+      out = None
     else:
       raise ValueError(op)
   except ValueError as e:
@@ -414,6 +486,9 @@ def exec_model(m, op, real=None, s=None, delivered=None):
       return ('ok', m.update_md(op[1], op[2], skv, tkv)), problems
     if kind == 'list_optimal':
       return ('ok', m.list_optimal(op[1], op[2])), problems
+    if kind == 'bad_name':
+      # denotes no study or trial: the call fails, nothing changes
+      return ('err', BAD_NAME), problems
   except sm.ModelError as e:
     return ('err', e.cls), problems
   raise ValueError(op)
@@ -430,6 +505,13 @@ def compare_results(op, real, model):
   if real[0] != model[0]:
     return 'real=%s model=%s' % (_brief(real), _brief(model))
   if real[0] == 'err':
+    if model[1] == BAD_NAME:
+      # the documentation names no single class for a malformed resource name
+      # (resources.py raises ValueError, a name lookup reports NOT_FOUND)
+      if real[1].startswith('CRASH:'):
+        return 'error class real=%s (%s) for a malformed name' % (
+            real[1], real[2])
+      return None
     if real[1] != model[1]:
       return 'error class real=%s (%s) model=%s' % (real[1], real[2], model[1])
     return None
